@@ -70,6 +70,13 @@ def _ls_elements(_):
     return out
 
 
+def _cls(kind, parts, default):
+    """input class of a concatenation (the known IPv6 special case gets a class of its own, see known_findings.json)"""
+    if kind == 'v6prefix' and len(parts) >= 2 and parts[-1] == '00' and parts[-2] == '00':
+        return 'v6prefix:ends-with-two-default-routes'
+    return default
+
+
 def validate(ndjson):
     st, text = tlc.run('TraceCompose', 'INIT Init\nNEXT Next\nPOSTCONDITION AllConsumed\nCHECK_DEADLOCK FALSE\n', workers=1, timeout=7200, env={'TRACE_FILE': ndjson})
     n = sum(1 for _ in open(ndjson))
@@ -107,13 +114,17 @@ def run(prop, tier, seed):
                     pairs.add((a, b))
                     pairs.add((b, a))
             for a, b in sorted(pairs):
-                jobs.append((ident, 'concat', kind, '%s:%d+%d' % (kind, len(a) // 2, len(b) // 2), [a, b], None))
+                jobs.append((ident, 'concat', kind, _cls(kind, [a, b], '%s:%d+%d' % (kind, len(a) // 2, len(b) // 2)), [a, b], None))
                 ident += 1
             for _ in range(40 if tier == 'quick' else 600):          # random k-tuples
                 k = rnd.randint(3, 6)
                 parts = [rnd.choice(pool_) for _ in range(k)]
-                jobs.append((ident, 'concat', kind, '%s:k%d' % (kind, k), parts, None))
+                jobs.append((ident, 'concat', kind, _cls(kind, parts, '%s:k%d' % (kind, k)), parts, None))
                 ident += 1
+        # the known IPv6 special case, always exercised (a list ending with two default routes)
+        for parts in (['00', '00'], ['4020010db800000000', '00', '00']):
+            jobs.append((ident, 'concat', 'v6prefix', _cls('v6prefix', parts, ''), parts, None))
+            ident += 1
         # unknown TLV inserted between known ones
         unknown = {'lstlv': struct.pack('!HH', 9999, 3).hex() + '010203', 'sidtlv': '63' + '0002' + 'abcd', 'cap': 'de02' + '0102',
                    'pathattr': 'c0c8' + '03' + '010203'}
@@ -170,7 +181,9 @@ def run(prop, tier, seed):
             for perm in itertools.permutations(base):
                 jobs.append((ident, 'perm', 'pathattr2', 'pathattr2:perm%d' % len(base), list(perm) + tl[5:], {'orig': tl}))
                 ident += 1
-            jobs.append((ident, 'insert', 'pathattr2', 'pathattr2:insert', [''.join(tl[:1]), unknown['pathattr'], ''.join(tl[1:])], None))
+            used = set(int(t[2:4], 16) for t in tl)
+            ut = [x for x in (200, 250, 251) if x not in used][0]        # an unknown type code the block does not carry already
+            jobs.append((ident, 'insert', 'pathattr2', 'pathattr2:insert', [''.join(tl[:1]), 'c0%02x' % ut + '03' + '010203', ''.join(tl[1:])], None))
             ident += 1
         for kind in ('lstlv', 'sidtlv', 'cap'):
             pool_ = sorted(set(pools.get(kind, [])))
@@ -219,7 +232,7 @@ def run(prop, tier, seed):
             sig = {'list': r['pst'], 'cls': r['cls']}
             payload = {'property': PROP, 'kind': 'compose', 'clause': r['clause'], 'signature': sig, 'mode': j[1], 'parts_hex': j[4], 'extra': j[5],
                        'lhs': d.get('lhs'), 'rhs': d.get('rhs'), 'err': d.get('err')}
-            v.reject(r['clause'], {'list': r['pst']}, payload, '%s lhs=%s rhs=%s %s' % (r['cls'], (d.get('lhs') or [])[:2], (d.get('rhs') or [])[:2], d.get('err', '')))
+            v.reject(r['clause'], sig if r['cls'].endswith('ends-with-two-default-routes') else {'list': r['pst']}, payload, '%s lhs=%s rhs=%s %s' % (r['cls'], (d.get('lhs') or [])[:2], (d.get('rhs') or [])[:2], d.get('err', '')))
         # binding self-test
         ok = False
         for line in open(nd):
